@@ -38,6 +38,7 @@ def run(F, R, ctx):
         jit_move_rule(F, R)
     from . import c11
     c11.union_rule(F, R, "C03.u")
+    ownership_arm_rule(F, R)
 
 
 def _run(F, R, ctx):
@@ -180,3 +181,132 @@ def jit_move_rule(F, R, rid="C03.m"):
                    "lets the second `m` read the slot after it was moved into the in-place insert" % (
                        f.short(), [e[3] for _, _, e in f.events("agg") if e[2] == "MutRegister"][:1]), f.loc(), sample=True)
     R.floor(rid, "MutRegister constructions in the translator", n, 2)
+
+
+# ---------------------------------------------------------------------------------------------------------------------
+# C03.s — the in-place arm and the copying arm of a functional update apply the same update
+MUTATOR_NAMES = {"push_back", "push_front", "pop_back", "pop_front", "set", "insert", "remove", "update", "truncate", "take",
+                 "skip", "clear", "union", "append", "retain", "split_off", "index_mut", "swap", "without", "extend", "push",
+                 "pop", "insert_str", "push_str", "remove_entry", "drain", "slice", "sort", "sort_by", "reverse", "difference",
+                 "intersection", "symmetric_difference", "relative_complement", "unions"}
+# persistent twins of an in-place mutator (the collection library's own naming), one line of reason each
+CANON = {
+    "update": "insert",      # HashMap/HashSet::update(k, v) = clone + insert(k, v)
+    "take": "truncate",      # Vector::take(n) = clone + truncate(n)  (take asserts n <= len, truncate does not: C07.s)
+    "skip": "pop_front",     # Vector::skip(n) = clone + n × pop_front
+    "without": "remove",     # HashMap/HashSet::without(k) = clone + remove(k)
+}
+COLLECTION_CRATES = r"^(steel_imbl|imbl|im|im_rc|im_lists|alloc|smallvec|hashbrown|std::collections)::"
+
+
+def ownership_arm_rule(F, R, rid="C03.s"):
+    from . import shared
+    from .c07 import _backward, _origins
+    R.rule(rid, "a functional update has two arms — in place when Gc::get_mut proves the holder unique, on a copy otherwise — and "
+                "both apply the same update: at every switch on the result of Gc::get_mut in script-reachable code where an "
+                "arm calls a mutator of the collection library, the other arm calls the same mutators (persistent twins "
+                "update/take/skip/without count as insert/truncate/pop_front/remove; `clear` pairs with constructing a fresh "
+                "collection), each mutator receives arguments derived from the same parameters, and the comparisons that "
+                "guard it in one arm guard it in the other. nc: otherwise the value returned depends on how many references "
+                "exist (the update is not 'the update applied to a fresh copy')")
+    reach = shared.script_reach(F)
+    n = 0
+    for name, fn in sorted(F.fns.items()):
+        if not name.startswith("steel::") or name not in reach:
+            continue
+        for i, b in fn.calls():
+            if not re.search(r"gc::\{impl Gc<T>\}::get_mut$", b["callee"]):
+                continue
+            nxt, hops = b.get("ret"), 0
+            while nxt is not None and fn.blocks[nxt]["k"] == "goto" and hops < 3:
+                nxt, hops = fn.blocks[nxt]["s"][0], hops + 1
+            if nxt is None:
+                continue
+            sw = fn.blocks[nxt]
+            if sw["k"] != "switch" or sw["on"] != "enum:Option":
+                continue          # tuple matches (hm_union) are C03.u's
+            am = lib.arm_map(fn, nxt)
+            maps = _backward(fn)
+            nparams = len(fn.d["in"])
+            params = {"_%d" % k for k in range(1, nparams + 1)}
+            cmpname = {}
+            for blk2 in fn.blocks:
+                for e in blk2["e"]:
+                    if e[0] == "der" and len(e) >= 5 and e[3] in ("Lt", "Le", "Gt", "Ge", "Eq", "Ne"):
+                        cmpname.setdefault(e[1], []).append((e[3], e[4], e[2]))
+            dom = fn.dominators()
+            arms = {}
+            for v in ("Some", "None"):
+                t = am.get(v, am["_"])
+                blocks = lib.arm_reach(fn, nxt, t)
+                muts, fresh, unfinished = [], False, False
+                for x in sorted(blocks):
+                    bx = fn.blocks[x]
+                    if bx["c"] or bx["k"] != "call":
+                        continue
+                    if re.search(r"todo|unimplemented", bx.get("mac", "")) and "panic" in bx["callee"]:
+                        unfinished = True
+                    if not re.search(COLLECTION_CRATES, bx["callee"]):
+                        continue
+                    short = lib.split_path(bx["callee"])[-1]
+                    if short in ("new", "default", "new_in") :
+                        fresh = True
+                    if short not in MUTATOR_NAMES:
+                        continue
+                    # parameters each non-receiver argument derives from
+                    argsrc = []
+                    for a in bx["args"][1:]:
+                        src = set()
+                        for tk in lib.TOK.findall(a):
+                            src |= _origins(fn, tk, maps) & params
+                        argsrc.append(frozenset(src))
+                    # comparisons inside the arm that dominate the mutator
+                    guards = []
+                    for sb in dom[x]:
+                        if sb not in blocks or fn.blocks[sb]["k"] != "switch" or fn.blocks[sb]["on"] != "bool":
+                            continue
+                        loc = re.match(r"_\d+", fn.blocks[sb].get("place", "").strip("()*"))
+                        if not loc:
+                            continue
+                        for c_ in [loc.group(0)] + sorted(_origins(fn, loc.group(0), (maps[0], {}, {}))):
+                            for op, side, src in cmpname.get(c_, ()):
+                                if side == 0:
+                                    guards.append(op)
+                    muts.append((CANON.get(short, short), short, tuple(argsrc), tuple(sorted(guards)), bx["line"]))
+                arms[v] = (muts, fresh, unfinished)
+            (ms, fs, us), (mn, fn_, un) = arms["Some"], arms["None"]
+            if not ms and not mn:
+                continue
+            n += 1
+            key = "%s: in-place and copying arm apply the same update" % fn.short()
+            names_s = sorted(set(m[0] for m in ms))
+            names_n = sorted(set(m[0] for m in mn))
+            problems = []
+            if un or us:
+                problems.append("one arm is unfinished (todo!/unimplemented!)")
+            if names_s != names_n:
+                if names_s == ["clear"] and not names_n and fn_:
+                    pass            # the copy of a cleared collection is a fresh one
+                else:
+                    problems.append("the in-place arm calls {%s}, the copying arm {%s}" % (
+                        ", ".join(sorted(set(m[1] for m in ms))) or "nothing", ", ".join(sorted(set(m[1] for m in mn))) or "nothing"))
+            else:
+                for cname in names_s:
+                    a_s = [m for m in ms if m[0] == cname]
+                    a_n = [m for m in mn if m[0] == cname]
+                    if len(a_s[0][2]) == len(a_n[0][2]):
+                        # position by position the same parameter reaches both calls (an arm may clamp with a length as well)
+                        for k in range(len(a_s[0][2])):
+                            ss = set().union(*[m[2][k] for m in a_s])
+                            sn = set().union(*[m[2][k] for m in a_n])
+                            if (ss or sn) and not (ss & sn):
+                                problems.append("argument %d of `%s` derives from parameter(s) %s in the in-place arm and %s in "
+                                                "the copying arm" % (k + 1, cname, sorted(ss) or "none", sorted(sn) or "none"))
+                    if a_s[0][1] == a_n[0][1] and {m[3] for m in a_s} != {m[3] for m in a_n}:
+                        problems.append("`%s` is guarded by the comparisons [%s] in the in-place arm and [%s] in the copying arm" % (
+                            cname, ",".join(a_s[0][3]), ",".join(a_n[0][3])))
+            R.inst(rid, key, not problems,
+                   "%s (switch on Gc::get_mut, line %s): %s — the result of the update depends on whether another reference to "
+                   "the collection exists" % (fn.short(), b["line"], "; ".join(problems)), fn.loc(b["line"]),
+                   sample={"fn": fn.short(), "in_place": [m[1] for m in ms], "copy": [m[1] for m in mn]})
+    R.floor(rid, "functional updates with an in-place arm", n, 10)
